@@ -26,6 +26,7 @@ class Case:
         self.expr = expr
         self.masks = tuple(masks)        # (polarity, mask Expr)
         self.domains = tuple(domains)    # np.where(cond, value, nan) conditions met on the way
+        self.shortcut = None             # (polarity, mask, line) of the `if mask.all(): return` this case comes from
 
     def key(self):
         return (tuple(sorted(pred_text(c) for c in self.conds)), tuple(p for p, _ in self.masks))
@@ -410,6 +411,24 @@ class MethodEval:
                     # data-dependent guard that raises (Softmax input checks): skip when the body only raises
                     if all(isinstance(x, ast.Raise) for x in s.body) and not s.orelse:
                         continue
+                    # `if mask.all(): ... return e`: a shortcut taken when every element satisfies the mask.  Its cases hold under the
+                    # mask (elementwise); the statements after it are the general program and are walked as if it were absent
+                    am = self._all_mask(s.test, env)
+                    if am is not None and not s.orelse and s.body and isinstance(s.body[-1], ast.Return):
+                        pol, mexpr = am
+                        saved = self.out
+                        self.out = []
+                        self.walk(list(s.body), dict(env), list(conds), {k: list(v) for k, v in masked.items()})
+                        short = self.out
+                        self.out = saved
+                        for c in short:
+                            if any(mask_equal(m2, mexpr) and p2 != pol for p2, m2 in c.masks):
+                                continue
+                            if not any(mask_equal(m2, mexpr) for p2, m2 in c.masks):
+                                c.masks = tuple(c.masks) + ((pol, mexpr),)
+                            c.shortcut = (pol, mexpr, s.lineno)
+                            self.out.append(c)
+                        continue
                     raise Undecided("data-dependent branch")
                 p_t, p_f = norm_pred(test, True), norm_pred(test, False)
                 rest = stmts[i + 1:]
@@ -453,6 +472,31 @@ class MethodEval:
             self.issues.append(Issue("R01.d", f"{self.tc.name}: partial sync of self.{attr} ({pname} only)",
                                      f"parameter(s) {stale} of the inner {inner} keep the value of an earlier call: "
                                      f"the result depends on the call history", line))
+
+    def _all_mask(self, test, env):
+        """(polarity, mask) when the test is `<mask>.all()` / `np.all(<mask>)` / `not (<mask>).any()`"""
+        neg = False
+        while isinstance(test, ast.UnaryOp) and isinstance(test.op, ast.Not):
+            test, neg = test.operand, not neg
+        if not isinstance(test, ast.Call) or test.keywords:
+            return None
+        if isinstance(test.func, ast.Attribute) and test.func.attr in ("all", "any") and not test.args and dotted(test.func.value) not in ("np", "numpy"):
+            which, arg = test.func.attr, test.func.value
+        elif dotted(test.func) in ("np.all", "np.any", "numpy.all", "numpy.any") and len(test.args) == 1:
+            which, arg = dotted(test.func).split(".")[1], test.args[0]
+        else:
+            return None
+        if (which == "all") == neg:
+            # `not m.all()` / `m.any()`: some element ...: not a statement about every element, unless it is `not m.any()` = all(not m)
+            if not (which == "any" and neg):
+                return None
+        try:
+            pol, mexpr = self._mask(arg, env)
+        except Undecided:
+            return None
+        if which == "any":
+            pol = not pol
+        return pol, mexpr
 
     def _is_nan_array(self, v):
         # x * nan  /  nan * x
